@@ -5,6 +5,7 @@ import (
 	"encoding/hex"
 	"encoding/json"
 	"sort"
+	"time"
 
 	"github.com/apache/yunikorn-core/pkg/common/resources"
 	"github.com/apache/yunikorn-core/pkg/scheduler"
@@ -84,9 +85,14 @@ type QueueSnap struct {
 	Template     string            `json:"template"`
 	QPSet        bool              `json:"qpSet"`
 	QPDue        bool              `json:"-"`
-	QPRunning    bool              `json:"qpRunning"`
-	HeadRoom     map[string]int64  `json:"headroom"`
-	EffMax       map[string]int64  `json:"effMax"`
+	// QPWhen is the part of the quota preemption start time that belongs to the state: "" (not set), "due" (start is
+	// in the past or less than a minute away) or "later". The scenarios use delays of 1ns or of hours, so the class is
+	// the same on every replay; without it a state whose start time was moved into the past by a reload would be merged
+	// with the state reached by the direct reload (same queues, same flags) and never be expanded.
+	QPWhen    string           `json:"qpWhen"`
+	QPRunning bool             `json:"qpRunning"`
+	HeadRoom  map[string]int64 `json:"headroom"`
+	EffMax    map[string]int64 `json:"effMax"`
 }
 
 type AskSnap struct {
@@ -244,6 +250,12 @@ func snapQueue(q *objects.Queue, out map[string]*QueueSnap) {
 	}
 	sort.Strings(qs.Children)
 	qs.QPSet, qs.QPDue, qs.QPRunning = q.VerifQuotaPreemptionState()
+	if start := q.VerifQuotaPreemptionStart(); !start.IsZero() {
+		qs.QPWhen = "later"
+		if time.Until(start) < time.Minute {
+			qs.QPWhen = "due"
+		}
+	}
 	if em := q.GetMaxResource(); em != nil {
 		qs.EffMax = map[string]int64{}
 		for k, v := range em.Resources {
